@@ -132,6 +132,8 @@ def run(ctx, db, tier):
     failed_publish_consistent(ctx, db)
     wake_means_news(ctx, db)
     kick_finds_live(ctx, db)
+    wake_only_live(ctx, db)
+    free_list_link(ctx, db)
 
 
 def advance_before_read(ctx, db):
@@ -1025,3 +1027,164 @@ def kick_finds_live(ctx, db):
                trace=fmt_trace(bad) if bad else None)
     if n == 0:
         raise Broken('kick_lk: no comparison with the subscriber to kick found')
+
+
+REGAWT = 'cocls::publisher::queue::subreg_t::_awt'
+REGUSED = 'cocls::publisher::queue::subreg_t::_used'
+NEXTFREE = PQ + '::_next_free'
+_LOOPS = ('ForStmt', 'CXXForRangeStmt', 'WhileStmt', 'DoStmt')
+
+
+def _used_verdicts(it):
+    """[(registration object, truth)] a branch item establishes about the _used flag of a registration on the edge it took (a negation in
+    front of the flag flips the verdict; every spelling the condition went through is looked at)"""
+    out = []
+    for p_, v_ in [(it.get('path'), it.val)] + list((it.get('forms') or {}).items()):
+        p_ = p_ or ''; v_ = bool(v_)
+        while True:
+            if p_.startswith('!(') and p_.endswith(')'):
+                p_ = p_[2:-1]; v_ = not v_
+            elif p_.startswith('!'):
+                p_ = p_[1:]; v_ = not v_
+            else:
+                break
+        m = re.fullmatch(r'(.+?)(\.|->)_used', p_)
+        if m and '(' not in m.group(1).replace('*(call(std::vector::begin))', '').replace('call(', '').replace(')', ''):
+            out.append((m.group(1), v_))
+        else:
+            sc = split_cmp(p_ if p_.startswith('(') else '(%s)' % p_)
+            if sc and sc[1] in ('==', '!=') and {sc[0], sc[2]} & {'true', 'false', '1', '0'}:
+                a_, c_ = (sc[0], sc[2]) if sc[2] in ('true', 'false', '1', '0') else (sc[2], sc[0])
+                m = re.fullmatch(r'(.+?)(\.|->)_used', a_)
+                if m:
+                    out.append((m.group(1), v_ == ((c_ in ('true', '1')) == (sc[1] == '=='))))
+    return out
+
+
+def wake_only_live(ctx, db):
+    """leave_lk only marks a registration slot unused: the awaiter field of a released slot keeps whatever the subscriber that left had parked
+    there (a subscriber destroyed while suspended), until the slot is recycled.  So the wake-up pass may look at the awaiter field of a
+    registration only after it has established, on that path and for that registration, that the slot is in use"""
+    rid = ctx.rule('C16.wake-only-live', 'GUARDED', 'push_lk (helpers, closures and function objects of the class expanded in place): the parked-awaiter field of a registration is read (tested, '
+                   'collected into the wake-up buffer, exchanged) only for a registration whose _used flag was found true earlier on the same path in the same round of the walk: '
+                   'the stale awaiter of a subscriber that left while parked is never resumed', floor=1)
+    T = _htracer(db, maxvisit=2)
+    for f in db.need(PQ + '::push_lk')[:1]:
+        roots = [f]
+        # a closure / call operator handed to something the enumerator does not expand in place is walked on its own
+        trs = [t for t in T.traces(f)]
+        if T.truncated:
+            raise Broken('path bound exceeded in push_lk')
+        inlined = {it.get('fname') for t in trs for it in t if it.get('fname')}
+        for g in _bodies_behind(db, f):
+            if g is not f and g['nname'] not in inlined and any(norm(e.get('field') or '') == REGAWT for e in g.events()):
+                roots.append(g); trs += T.traces(g)
+        ctx.paths(rid, len(trs))
+        sites = {}
+        for tr in trs:
+            used = set()
+            for i, it in enumerate(tr):
+                if it.k == 'branch' and it.term in _LOOPS:
+                    used = set()         # the next round of the walk looks at another registration
+                elif it.k == 'branch':
+                    for obj, v_ in _used_verdicts(it):
+                        (used.add if v_ else used.discard)(obj)
+                elif it.k == 'write' and field_of(it) == REGUSED:
+                    used.discard(re.sub(r'(\.|->)_used$', '', it.get('path') or ''))
+                else:
+                    looks = []
+                    if it.k == 'read' and field_of(it) == REGAWT:
+                        looks.append(it.get('path') or '')
+                    elif it.k == 'call':
+                        looks += [a.get('path') or '' for a in (it.get('args') or []) if norm(a.get('field') or '') == REGAWT]
+                    for p_ in looks:
+                        obj = re.sub(r'(\.|->)_awt$', '', p_)
+                        key = it.get('loc')
+                        sites.setdefault(key, [True, None])
+                        if obj not in used and sites[key][0]:
+                            sites[key] = [False, tr[:i + 1]]
+        if not sites:
+            raise Broken('push_lk never looks at the parked awaiter of a registration: anchor changed')
+        for loc, (ok, tr) in sorted(sites.items(), key=lambda x: str(x[0])):
+            ctx.ob(rid, f, loc, ok, 'the awaiter field is consulted for a registration found in use on this path',
+                   desc='push_lk consults (and collects) the parked awaiter of a registration without having tested that the slot is in use: the stale awaiter of a subscriber that left while '
+                        'parked is resumed' if not ok else None, trace=fmt_trace(tr) if tr else None)
+
+
+def _head_store(it):
+    """the value expression an item stores into the free-list head _next_free (plain assignment or std::exchange(_next_free, v)); None when the
+    item is no such store"""
+    if it.k == 'write' and field_of(it) == NEXTFREE:
+        return (it.get('rhs') or '?') if (it.get('op') or '=') == '=' else '?'
+    if it.k == 'call' and norm(it.get('callee') or '') == 'std::exchange':
+        a = it.get('args') or []
+        if len(a) == 2 and norm(a[0].get('field') or '') == NEXTFREE:
+            return a[1].get('path') or '?'
+    return None
+
+
+def _slot_store(it, obj):
+    """the item gives the link field (_pos) of registration `obj` a new value: a store into obj._pos, or an assignment of the whole record"""
+    if it.k == 'write' and field_of(it) == REGPOS and re.sub(r'(\.|->)_pos$', '', it.get('path') or '') == obj:
+        return True
+    return it.k == 'call' and it.get('recv') == obj and norm(it.get('callee') or '').endswith('subreg_t::operator=')
+
+
+def free_list_link(ctx, db):
+    """free registration slots form a list threaded through their _pos field: _next_free is the head, leave_lk pushes (slot._pos = old head;
+    head = slot), subscribe_lk pops (head = slot._pos; then the slot is initialised).  The value that moves must be the one the field / the
+    head had BEFORE the operation overwrote it"""
+    rid = ctx.rule('C16.free-list-link', 'PATHS (value origin)', 'subscribe_lk(sub, pos), on every path that recycles a slot: the new free-list head _next_free is the link the slot kept in _pos, '
+                   'read before anything on that path stored into that slot\'s _pos (field store or assignment of the whole record); leave_lk, on every path: the released slot\'s _pos '
+                   'receives the head as it was before the head was redirected to the slot, and the head receives the released handle', floor=2)
+    T = _htracer(db)
+    fns = [f for f in db.fns(PQ + '::subscribe_lk') if len(f['params']) == 2 and 'subscriber' in f['params'][0]['type'] and 'subscriber' not in f['params'][1]['type']]
+    if not fns:
+        raise Broken('anchor vanished: subscribe_lk(sub, pos)')
+    f = fns[0]
+    trs = [t for t in T.traces(f) if live(t)]
+    ctx.paths(rid, len(trs))
+    bad = None; n = 0
+    for tr in trs:
+        if any(it.k == 'call' and norm(it.get('callee') or '').split('::')[-1] in ('push_back', 'emplace_back') and norm(it.get('field') or '') == PQ + '::_regs' for it in tr):
+            continue        # a fresh slot is appended
+        n += 1
+        st = [i for i, it in enumerate(tr) if _head_store(it) is not None]
+        if not st:
+            bad = bad or ('a slot is taken from the free list and the head still points at it', tr)
+            continue
+        i = st[-1]
+        o, at = origin_in_trace(tr, i, _head_store(tr[i]))
+        o = o or ''
+        if not re.search(r'(\.|->)_pos$', o) or o == 'this->_pos':
+            bad = bad or ('the free-list head is set to %s, which is not the link kept in the recycled slot' % (o or '?'), tr)
+            continue
+        obj = re.sub(r'(\.|->)_pos$', '', o)
+        # where the link was read: the last read of the field up to the point the value was taken
+        rd = next((j for j in range(min(at, i), -1, -1) if tr[j].k == 'read' and tr[j].get('path') == o), min(at, i))
+        if any(_slot_store(it, obj) for it in tr[:rd]):
+            bad = bad or ('the link of the recycled slot is read after the slot\'s _pos was overwritten: the head becomes the new subscriber\'s position, a later subscriber is handed a slot in use', tr)
+    if n == 0 and not bad:
+        bad = ('subscribe_lk lost its recycle path', [])
+    ctx.ob(rid, f, f['key'], bad is None, 'recycling pops the free list: head = link read before the slot is re-initialised' + ('' if not bad else ' -- ' + bad[0]), desc=bad[0] if bad else None,
+           trace=fmt_trace(bad[1]) if bad and bad[1] else None)
+    for f in db.need(PQ + '::leave_lk')[:1]:
+        trs = [t for t in T.traces(f) if live(t)]
+        ctx.paths(rid, len(trs))
+        bad = None
+        for tr in trs:
+            hs = [i for i, it in enumerate(tr) if _head_store(it) is not None]
+            ls = [i for i, it in enumerate(tr) if it.k == 'write' and field_of(it) == REGPOS]
+            if len(hs) != 1 or len(ls) != 1:
+                bad = bad or ('leave does not link the slot into the free list exactly once', tr)
+                continue
+            o, at = origin_in_trace(tr, ls[0], tr[ls[0]].get('rhs') or '')
+            if o != 'this->_next_free' or (min(at, ls[0]) > hs[0]):
+                bad = bad or ('the released slot does not receive the previous free-list head as its link', tr)
+            h_, _at = origin_in_trace(tr, hs[0], _head_store(tr[hs[0]]))
+            if not re.fullmatch(r'param:\w+', h_ or ''):
+                bad = bad or ('the free-list head is not set to the released handle', tr)
+        if not trs:
+            bad = ('leave_lk has no path', [])
+        ctx.ob(rid, f, f['key'], bad is None, 'leaving pushes the slot on the free list: link = old head, head = handle' + ('' if not bad else ' -- ' + bad[0]), desc=bad[0] if bad else None,
+               trace=fmt_trace(bad[1]) if bad and bad[1] else None)
